@@ -114,6 +114,7 @@ def contract_sjm(I, fn, args, kwargs):
     if Nint is not None and not c.decide(icmp("<=", n, Nint)):
         raise PyRaise("AssertionError", "Sample size is larger than the population!")
     PS = x.fold("+")
+    I.trace.setdefault("sjm_x", []).append(x)
     Sarr = mk_arr(n, lambda k: npx(PS.at(k)))
     Stot = npx(PS.at(n))
     jarr = SymArr(n, lambda k: mkint(iadd(k, 1)), "int") if not isinstance(n, int) else SymArr(0, kind="int", items=list(range(1, n + 1)))
@@ -740,3 +741,591 @@ def fixed_bet_post(S, I, variant):
         S.holds("0 <= lam_k and lam_k*mu_k <= 1 where 0 < mu_k <= u",
                 bimp(band(xcmp(">", mu, XR.const(0)), xcmp("<=", mu, u)),
                      band(xcmp(">=", lk, XR.const(0)), xcmp("<=", xmul(lk, mu), XR.const(1)))))
+
+
+# ------------------------------------------------------------------ non-anticipation (C05): relational obligations
+
+def agree_prefix(S, name, x, k, n2, lo, hi):
+    """a second sample of length n2 that agrees with x on indices < k (by construction) and is arbitrary afterwards"""
+    y2 = S.array(name, n2, lo, hi)
+    if y2.items is not None:
+        kk = k if isinstance(k, int) else None
+        items = [vite(icmp("<", i, k), x.at(i), y2.items[i]) if i < x.length else y2.items[i] for i in range(len(y2.items))] \
+            if isinstance(x.length, int) else None
+        return SymArr(0, kind="xr", items=items, name=name)
+    return SymArr(n2, lambda i: fold_ite(icmp("<", i, k), x.at(i), y2.at(i)), "xr", name=name)
+
+
+def prefix_sum_lemma(S, x, y, k, name="prefix-sums-agree"):
+    """PS_x(i) = PS_y(i) for i <= k when x and y agree below k (induction)"""
+    if x.items is not None:
+        return lambda i: True
+    Px, Py = x.fold("+"), y.fold("+")
+    return scoped_induction(S, name, lambda i: xsame(Px.at(i), Py.at(i)), k)
+
+
+def relational_setup(S, I, finiteN, trunc):
+    """x (length n) and y: either agreeing with x below k and continuing differently (NA1), or y = x[:k] (NA2)"""
+    n = S.length("n", lo=2 if not trunc else 1)
+    u = S.real("u", lo_strict=0)
+    t = S.real("t", lo_strict=0, hi_strict=u)
+    if finiteN:
+        N = S.integer("N", lo=n)
+        Nv, Nspec = N, N
+    else:
+        Nv, Nspec = INF, None
+    x = S.array("x", n, 0, u)
+    if S.mode == "replay":
+        k = S.length("k")
+    elif isinstance(n, int):
+        k = max(1, n - 1)
+        S._rec("k", k)
+    else:
+        k = z3.Int("k")
+        ctx().assume(z3.And(k >= 1, k < n if not trunc else k <= n))
+        S._rec("k", k)
+    if trunc:
+        from pyvc.npmodel import arr_getitem
+        y = arr_getitem(I, x, slice(0, mkint(k), None))
+        ny = k
+    else:
+        ny = S.length("n2", lo=2)
+        if isinstance(ny, int):
+            if not (k < ny):
+                raise PathInfeasible()
+        else:
+            ctx().assume(ny > zi(k))
+            if finiteN:
+                ctx().assume(zi(iterm(Nv)) >= ny)
+        y = agree_prefix(S, "y", x, k, ny, 0, u)
+    return n, ny, k, u, t, Nv, Nspec, x, y
+
+
+def rel_param(S, name, n, ny, k, upto_incl):
+    """abstract predictable parameter sequences for the two runs: equal on indices <= k (resp. < k)"""
+    px = S.array(name, n)
+    p2 = S.array(name + "2", ny)
+    lim = iadd(k, 1) if upto_incl else k
+    if p2.items is not None:
+        items = [vite(icmp("<", i, lim), px.at(i), p2.items[i]) if i < px.length else p2.items[i] for i in range(len(p2.items))]
+        py = SymArr(0, kind="xr", items=items)
+    else:
+        py = SymArr(ny, lambda i: fold_ite(icmp("<", i, lim), px.at(i), p2.at(i)), "xr")
+    return px, py
+
+
+def rel_native(method, finiteN, arrname, abstract_role=None, parname=None, attrs=()):
+    d = nn_native(method, finiteN, attrs=attrs, args=(arrname,))
+    if abstract_role:
+        d["abstract"] = {abstract_role: parname}
+    return d
+
+
+@script(["C05", "C01"], "NonnegMean.alpha_mart/non-anticipation", variants=(("finiteN", "NA1"), ("infN", "NA1"), ("finiteN", "NA2"), ("infN", "NA2")))
+def alpha_na(S, I, variant):
+    mart_na(S, I, "alpha", variant[0] == "finiteN", variant[1] == "NA2")
+
+
+@script(["C05", "C01"], "NonnegMean.betting_mart/non-anticipation", variants=(("finiteN", "NA1"), ("infN", "NA1"), ("finiteN", "NA2"), ("infN", "NA2")))
+def betting_na(S, I, variant):
+    mart_na(S, I, "betting", variant[0] == "finiteN", variant[1] == "NA2")
+
+
+def two_runs(S, I, fn, mk_self_x, mk_self_y, x, y, native_x, native_y):
+    """run the same real function on the two related samples; replay mode: two native runs"""
+    if S.mode == "replay":
+        outs = S.native_out if isinstance(S.native_out, list) else [S.native_out, S.native_out]
+        S.native_desc = [native_x, native_y]
+        res = []
+        for o in outs:
+            if not o.get("ok"):
+                S.holds("no-exception:" + o.get("exception", "?"), False)
+                return None
+            res.append(from_native(o["value"]))
+        return res[0], res[1], None, None
+    S.native_desc = [native_x, native_y]
+    I.trace.clear()
+    try:
+        rx = I.run(fn, [mk_self_x(), x])
+        tx = dict(I.trace)
+        I.trace.clear()
+        ry = I.run(fn, [mk_self_y(), y])
+        ty = dict(I.trace)
+    except PyRaise as e:
+        S.holds("no-exception:" + e.exc_type + ":" + e.msg[:40], False)
+        return None
+    return rx, ry, tx, ty
+
+
+def product_agree_lemma(S, tx, ty, k, pre, name="running-products-agree"):
+    cx, cy = tx.get("cum*", []), ty.get("cum*", [])
+    if len(cx) != 1 or len(cy) != 1:
+        S.holds("exactly-one-running-product", False)
+        return None
+    Fx, Fy = cx[0].fold("*"), cy[0].fold("*")
+    return scoped_induction(S, name, lambda i: xsame(Fx.at(i), Fy.at(i)), k, pre=pre)
+
+
+def scoped_induction(S, name, P, hi, pre=None):
+    """forall 0 <= i <= hi. P(i) by induction; the step's hypotheses (0 <= i, i+1 <= hi, P(i)) are scoped facts, so
+    conditionals depending on them are resolved while the step's terms are built"""
+    c = ctx()
+    rb = S.prove(name + ".base", P(z3.IntVal(0)))
+    i = z3.Int(c.fresh("ind_i"))
+    with c.scope():
+        c.assume(z3.And(i >= 0, i + 1 <= zi(hi)))
+        if pre:
+            pre(i)
+            pre(i + 1)
+        pi = P(i)
+        c.assume(pi)
+        rs = S.prove(name + ".step", P(i + 1))
+    ok = rb.status == "proved" and rs.status == "proved"
+
+    def inst(j):
+        if ok:
+            c.assume(bimp(band(icmp(">=", j, 0), icmp("<=", j, hi)), P(zi(j))))
+        return ok
+    return inst
+
+
+def mart_na(S, I, which, finiteN, trunc):
+    install_contracts(I)
+    n, ny, k, u, t, Nv, Nspec, x, y = relational_setup(S, I, finiteN, trunc)
+    pname = "eta" if which == "alpha" else "lam"
+    if trunc:
+        px = S.array(pname, n)
+        from pyvc.npmodel import arr_getitem
+        py = arr_getitem(I, px, slice(0, mkint(k), None))
+        S._rec(pname + "2", py)
+    else:
+        px, py = rel_param(S, pname, n, ny, k, upto_incl=False)
+    role = "estim" if which == "alpha" else "bet"
+    mk = lambda par: (lambda: mk_self(I, {"u": u, "N": Nv, "t": t, role: abstract_vec(par)}))
+    meth = "alpha_mart" if which == "alpha" else "betting_mart"
+    fn = I.get(MOD, "NonnegMean." + meth)
+    r = two_runs(S, I, fn, mk(px), mk(py), x, y,
+                 rel_native(meth, finiteN, "x", role, pname), rel_native(meth, finiteN, "y" if not trunc else "x[:k]", role, pname + "2"))
+    if r is None:
+        return
+    (p_x, h_x), (p_y, h_y), tx, ty = r
+    S.holds("len(hist_y)", icmp("==", h_y.length, ny))
+    if isinstance(n, int):
+        kk = k
+        for j in range(kk if not trunc else kk - 1):
+            S.eq("hist_x[j]=hist_y[j] (j<k)", h_x.at(j), h_y.at(j))
+        if trunc:
+            PSx = x.fold("+")
+            exceeds = False if Nspec is None else xcmp(">", PSx.at(kk), xmul(XR.const(Nspec), t))
+            S.holds("truncation: last entry equal, or total exceeds N t and entry is 0",
+                    bor(xsame(h_x.at(kk - 1), h_y.at(kk - 1)), band(exceeds, xsame(h_y.at(kk - 1), XR.const(0)))))
+        return
+    instA = prefix_sum_lemma(S, x, y, k)
+    instB = product_agree_lemma(S, tx, ty, k, pre=lambda i: instA(i))
+    if instB is None:
+        return
+    from pyvc.spec import skolem
+    j = skolem("j", k)
+    instA(j)
+    instA(j + 1)
+    instB(j + 1)
+    if not trunc:
+        S.eq("hist_x[j]=hist_y[j] (j<k)", h_x.at(j), h_y.at(j))
+    else:
+        S.eq("hist_x[j]=hist_y[j] (j<k-1)", h_x.at(j), h_y.at(j), extra=[j < zi(k) - 1])
+        instA(k)
+        instA(zi(k) - 1)
+        instB(k)
+        PSx = x.fold("+")
+        exceeds = False if Nspec is None else xcmp(">", PSx.at(k), xmul(XR.const(Nspec), t))
+        S.holds("truncation: last entry equal, or total exceeds N t and entry is 0",
+                bor(xsame(h_x.at(zi(k) - 1), h_y.at(zi(k) - 1)), band(exceeds, xsame(h_y.at(zi(k) - 1), XR.const(0)))))
+    S.check_vacuity("mart_na")
+
+
+# ------------------------------------------------------------------ shrink_trunc
+
+def install_welford(I):
+    I.contracts["welford_mean_var"] = contract_welford
+
+
+def m2_nonneg_lemma(S, x, n):
+    """lemma over the Welford spec: M2(k) is finite and >= 0 (so var >= 0, sqrt never NaN)"""
+    mean, var, M2, incarr = welford_spec(x)
+    if isinstance(n, int):
+        return lambda i: True
+    inc_ok = S.forall_lemma("welford increment >= 0", n, lambda k: band(incarr.at(k).fin(), rcmp(">=", incarr.at(k).v, 0)))
+    return induction_with(S, "M2 >= 0", lambda k: band(M2.at(k).fin(), rcmp(">=", M2.at(k).v, 0)), n, pre=lambda k: inc_ok(k))
+
+
+def shrink_params(S):
+    c_ = S.real("c", lo_strict=0)
+    d = S.real("d", lo_strict=0)
+    f = S.real("f", lo=0)
+    minsd = S.real("minsd", lo_strict=0)
+    return c_, d, f, minsd
+
+
+def shrink_spec(x, k, u, t, Nspec, eta0, c_, d, f, minsd):
+    """eta_k per the documented definition (0-based k)"""
+    PS = x.fold("+")
+    mean, var, M2, incarr = welford_spec(x)
+    one = XR.const(1, npk=True)
+    kk = XR.const(k, npk=True) if not isinstance(k, int) else XR.const(k, npk=True)
+    if isinstance(k, int):
+        sd = one if k < 2 else xmaximum(xsqrt(var(k - 1)), minsd)
+    else:
+        sd = xite(icmp("<", k, 2), one, xmaximum(xsqrt(var(isub(k, 1))), minsd))
+    dk = xadd(npx(d), kk)
+    A = xdiv_np(xadd(xmul(npx(d), eta0), PS.at(k)), dk)
+    w = xdiv_np(xadd(A, xdiv_np(xmul(npx(u), f), sd)), xadd(one, xdiv_np(npx(f), sd)))
+    mu = mu_spec(Nspec, t, PS, k)
+    low = xadd(mu, xdiv_np(npx(c_), xsqrt(dk)))
+    cap = xmul(npx(u), xsub(one, XR.const(EPS, npk=True)))
+    return xminimum(cap, xmaximum(w, low)), mu, cap
+
+
+def shrink_native(finiteN):
+    return nn_native("shrink_trunc", finiteN, attrs=("eta", "c", "d", "f", "minsd"))
+
+
+@script(["C13", "C12", "C01", "C11"], "NonnegMean.shrink_trunc/post+range", variants=(("finiteN",), ("infN",)))
+def shrink_post(S, I, variant):
+    finiteN = variant[0] == "finiteN"
+    install_contracts(I)
+    install_welford(I)
+    n, u, t, Nv, Nspec = base_regime(S, finiteN)
+    eta0 = S.real("eta", lo_strict=t, hi_strict=u)
+    c_, d, f, minsd = shrink_params(S)
+    x = S.array("x", n, 0, u)
+    self = est_self(S, I, n, u, t, Nv, {"eta": eta0, "c": c_, "d": d, "f": f, "minsd": minsd})
+    fn = I.get(MOD, "NonnegMean.shrink_trunc")
+    r, exc = run_guard(S, I, fn, [self, x], native=shrink_native(finiteN))
+    if exc:
+        return
+    S.holds("len", icmp("==", r.length, n))
+    instM = m2_nonneg_lemma(S, x, n)
+    zero = XR.const(0)
+    for k in indices(S, n, "k"):
+        instM(k)
+        instM(iadd(k, 1))
+        ek = r.at(k)
+        spec, mu, cap = shrink_spec(x, k, u, t, Nspec, eta0, c_, d, f, minsd)
+        S.eq("eta_k = min(u(1-eps), max(weighted_k, mu_k + c/sqrt(d+k)))", ek, spec)
+        S.holds("eta_k in [0,u), not NaN", band(xr(ek).fin(), xcmp(">=", ek, zero), xcmp("<", ek, u)))
+        # K6 (known finding): on the knife edge u(1-eps) <= mu_k < u the estimate is not above mu_k
+        S.known("K6", "eta_k > mu_k whenever mu_k < u", bimp(xcmp("<", mu, u), xcmp(">", ek, mu)),
+                carve=xcmp(">=", mu, cap))
+
+
+@script(["C05", "C01"], "NonnegMean.shrink_trunc/predictable", variants=(("finiteN",), ("infN",)))
+def shrink_na(S, I, variant):
+    finiteN = variant[0] == "finiteN"
+    install_contracts(I)
+    install_welford(I)
+    n, ny, k, u, t, Nv, Nspec, x, y = relational_setup(S, I, finiteN, False)
+    eta0 = S.real("eta", lo_strict=t, hi_strict=u)
+    c_, d, f, minsd = shrink_params(S)
+    mk = lambda: mk_self(I, {"u": u, "N": Nv, "t": t, "eta": eta0, "c": c_, "d": d, "f": f, "minsd": minsd})
+    fn = I.get(MOD, "NonnegMean.shrink_trunc")
+    nat = lambda a: nn_native("shrink_trunc", finiteN, attrs=("eta", "c", "d", "f", "minsd"), args=(a,))
+    r = two_runs(S, I, fn, mk, mk, x, y, nat("x"), nat("y"))
+    if r is None:
+        return
+    ex, ey, _, _ = r
+    estimator_na_goals(S, x, y, k, n, ex, ey)
+
+
+def estimator_na_goals(S, x, y, k, n, ex, ey):
+    """entry j of the estimate / bet is unaffected by any change to observations j, j+1, ...  (j <= k)"""
+    if isinstance(n, int):
+        for j in range(k + 1):
+            S.eq("est_x[j]=est_y[j] (j<=k)", ex.at(j), ey.at(j))
+        return
+    instA = prefix_sum_lemma(S, x, y, k)
+    mx, vx, M2x, incx = welford_spec(x)
+    my, vy, M2y, incy = welford_spec(y)
+    # running M2 agree up to k (entry i of the increments uses x_0..x_i)
+    instV = scoped_induction(S, "welford-M2-agree", lambda i: xsame(M2x.at(i), M2y.at(i)), k,
+                             pre=lambda i: (instA(i), instA(i + 1), instA(i - 1)))
+    c = ctx()
+    j = z3.Int(c.fresh("j"))
+    c.assume(z3.And(j >= 0, j <= zi(k)))
+    c.index_terms_add(j)
+    for q in (j, j - 1, j + 1):
+        instA(q)
+        instV(q)
+    instV(j - 2)
+    instA(j - 2)
+    S.eq("est_x[j]=est_y[j] (j<=k)", ex.at(j), ey.at(j))
+    S.check_vacuity("estimator_na")
+
+
+# ------------------------------------------------------------------ agrapa
+
+def agrapa_params(S):
+    lam = S.real("lam", lo=0)
+    c0 = S.real("c_grapa_0", lo_strict=0, hi_strict=1)
+    cm = S.real("c_grapa_max", lo=c0, hi_strict=1)
+    cg = S.real("c_grapa_grow", lo=0)
+    return lam, c0, cm, cg
+
+
+def agrapa_spec(x, k, u, t, Nspec, lam, c0, cm, cg):
+    PS = x.fold("+")
+    mean, var, M2, incarr = welford_spec(x)
+    one = XR.const(1, npk=True)
+    mu = mu_spec(Nspec, t, PS, k)
+    kk = XR.const(k, npk=True)
+    ck = xadd(npx(c0), xmul(xsub(npx(cm), npx(c0)), xsub(one, xdiv_np(one, xadd(one, xmul(npx(cg), xsqrt(kk)))))))
+
+    def raw(i):
+        mu_i = mu_spec(Nspec, t, PS, i)
+        num = xsub(mean(i), mu_i)
+        dif = xsub(mu_i, mean(i))
+        den = xadd(var(i), xmul(dif, dif))
+        return xdiv_np(num, den), num, den
+
+    if isinstance(k, int):
+        r = npx(lam) if k == 0 else raw(k - 1)[0]
+        num, den = (None, None) if k == 0 else raw(k - 1)[1:]
+    else:
+        rw, num, den = raw(isub(k, 1))
+        r = xite(icmp("==", k, 0), npx(lam), rw)
+    val = xmaximum(XR.const(0, npk=True), xminimum(xdiv_np(ck, mu), r))
+    nan_case = False if (isinstance(k, int) and k == 0) else band(bnot(icmp("==", k, 0)), den.zero(), num.zero())
+    return val, mu, ck, nan_case
+
+
+@script(["C13", "C12", "C01", "C11"], "NonnegMean.agrapa/post+range", variants=(("finiteN",), ("infN",)))
+def agrapa_post(S, I, variant):
+    finiteN = variant[0] == "finiteN"
+    install_welford(I)
+    n, u, t, Nv, Nspec = base_regime(S, finiteN)
+    lam, c0, cm, cg = agrapa_params(S)
+    x = S.array("x", n, 0, u)
+    self = est_self(S, I, n, u, t, Nv, {"lam": lam, "c_grapa_0": c0, "c_grapa_max": cm, "c_grapa_grow": cg})
+    fn = I.get(MOD, "NonnegMean.agrapa")
+    r, exc = run_guard(S, I, fn, [self, x], native=nn_native("agrapa", finiteN, attrs=("lam", "c_grapa_0", "c_grapa_max", "c_grapa_grow")))
+    if exc:
+        return
+    S.holds("len", icmp("==", r.length, n))
+    instM = m2_nonneg_lemma(S, x, n)
+    zero = XR.const(0)
+    for k in indices(S, n, "k"):
+        instM(k)
+        instM(iadd(k, 1))
+        lk = r.at(k)
+        spec, mu, ck, nan_case = agrapa_spec(x, k, u, t, Nspec, lam, c0, cm, cg)
+        S.eq("lam_k = max(0, min(c_k/mu_k, raw_{k-1}))", lk, spec)
+        S.holds("c_k in [c_0, c_max]", band(xcmp(">=", ck, c0), xcmp("<=", ck, cm)))
+        ok_mu = band(xcmp(">", mu, zero), xcmp("<=", mu, u))
+        # K3 (known finding): the bet is NaN (0/0) when the running mean equals the null mean with zero variance
+        S.known("K3", "0 <= lam_k and lam_k*mu_k <= c_k < 1 where 0 < mu_k <= u, not NaN",
+                bimp(ok_mu, band(xr(lk).fin(), xcmp(">=", lk, zero), xcmp("<=", xmul(lk, mu), ck))), carve=nan_case)
+
+
+@script(["C05", "C01"], "NonnegMean.agrapa/predictable", variants=(("finiteN",), ("infN",)))
+def agrapa_na(S, I, variant):
+    finiteN = variant[0] == "finiteN"
+    install_welford(I)
+    n, ny, k, u, t, Nv, Nspec, x, y = relational_setup(S, I, finiteN, False)
+    lam, c0, cm, cg = agrapa_params(S)
+    attrs = ("lam", "c_grapa_0", "c_grapa_max", "c_grapa_grow")
+    mk = lambda: mk_self(I, {"u": u, "N": Nv, "t": t, "lam": lam, "c_grapa_0": c0, "c_grapa_max": cm, "c_grapa_grow": cg})
+    fn = I.get(MOD, "NonnegMean.agrapa")
+    nat = lambda a: nn_native("agrapa", finiteN, attrs=attrs, args=(a,))
+    r = two_runs(S, I, fn, mk, mk, x, y, nat("x"), nat("y"))
+    if r is None:
+        return
+    ex, ey, _, _ = r
+    estimator_na_goals(S, x, y, k, n, ex, ey)
+
+
+# ------------------------------------------------------------------ Kaplan-Kolmogorov / Kaplan-Markov / Kaplan-Wald / SPRT
+
+def sum_shift_lemma(S, x, xg, g, n):
+    """PS_{x+g}(i) = PS_x(i) + i g   (induction)"""
+    if x.items is not None:
+        return lambda i: True
+    Px, Pg = x.fold("+"), xg.fold("+")
+    return S.induction("sum(x+g) = sum(x) + i g", lambda i: xsame(Pg.at(i), xadd(Px.at(i), xmul(XR.const(i), g))), lo=0, hi=n)
+
+
+def hist_ok_v(h):
+    h = xr(h)
+    return band(bnot(h.nan), xcmp(">=", h, XR.const(0)), xcmp("<=", h, XR.const(1)))
+
+
+def p_clauses(S, p, hist, n, random_order, ext_kind="max"):
+    """overall p-value vs history: min over the history when random_order, else the last entry (C11)"""
+    c = ctx()
+    if isinstance(n, int):
+        S.holds("p in [0,1], not NaN", hist_ok_v(p))
+        if random_order:
+            for j in range(n):
+                S.holds("p <= hist[j]", xcmp("<=", p, hist.at(j)))
+            S.holds("p = hist[w] for some w", bor(*[xsame(p, hist.at(j)) for j in range(n)]))
+        else:
+            S.eq("p = hist[last]", p, hist.at(n - 1))
+        return None
+    return True
+
+
+@script(["C12", "C01"], "NonnegMean.kaplan_kolmogorov/product-form")
+def kk_product(S, I, variant):
+    install_contracts(I)
+    n, u, t, Nv, Nspec = base_regime(S, True)
+    g = S.real("g", lo=0, hi_strict=1)
+    x = S.array("x", n, 0, u)
+    ro = S.boolean("random_order")
+    self = mk_self(I, {"u": u, "N": Nv, "t": t, "g": g, "random_order": ro})
+    fn = I.get(MOD, "NonnegMean.kaplan_kolmogorov")
+    I.trace.clear()
+    r, exc = run_guard(S, I, fn, [self, x], native=nn_native("kaplan_kolmogorov", True, attrs=("g", "random_order")))
+    if exc:
+        return
+    p, hist = r
+    PS = x.fold("+")
+    mu = lambda k: mu_spec(Nspec, t, PS, k)
+    fs = mk_arr(n, lambda k: xdiv_np(xadd(npx(x.at(k)), g), xadd(mu(k), g)))
+    S.holds("len(hist)=n", icmp("==", hist.length, n))
+    one = XR.const(1, npk=True)
+
+    def spec(j, T):
+        v = xminimum(xdiv_np(one, T), one)
+        return xite(xcmp("<", xadd(mu(j), g), XR.const(0)), XR.const(0, npk=True), v)
+
+    T = fs.fold("*")
+    if isinstance(n, int):
+        for j in range(n):
+            S.eq("hist[j]=min(1,1/prod (x_i+g)/(mu_i+g)); 0 where mu_j+g<0", hist.at(j), spec(j, T.at(j + 1)))
+        return
+    cps, cs = I.trace.get("cum*", []), I.trace.get("sjm_x", [])
+    if len(cps) != 1 or len(cs) != 1:
+        S.holds("one running product, one running sum", False)
+        return
+    shift = sum_shift_lemma(S, x, cs[0], g, n)
+    # pointwise: the code's null mean of the padded data is mu_k + g
+    c = ctx()
+    kk = z3.Int(c.fresh("kq"))
+
+    def pre(k):
+        shift(k)
+
+    instF = scoped_induction(S, "running-products-agree", lambda i: xsame(cps[0].fold("*").at(i), T.at(i)), n,
+                             pre=lambda i: (shift(i), shift(i + 1)))
+    for j in indices(S, n, "j"):
+        shift(j)
+        shift(j + 1)
+        instF(j + 1)
+        S.eq("hist[j]=min(1,1/prod (x_i+g)/(mu_i+g)); 0 where mu_j+g<0", hist.at(j), spec(j, T.at(j + 1)))
+    S.check_vacuity("kk")
+
+
+@script(["C12", "C01"], "NonnegMean.kaplan_markov/product-form")
+def km_product(S, I, variant):
+    n = S.length("n", lo=1)
+    u = S.real("u", lo_strict=0)
+    t = S.real("t", lo_strict=0, hi_strict=u)
+    g = S.real("g", lo=0)
+    x = S.array("x", n, 0, u)
+    ro = S.boolean("random_order")
+    self = mk_self(I, {"u": u, "N": INF, "t": t, "g": g, "random_order": ro})
+    fn = I.get(MOD, "NonnegMean.kaplan_markov")
+    I.trace.clear()
+    ctx().trace.clear()
+    r, exc = run_guard(S, I, fn, [self, x], native=nn_native("kaplan_markov", False, attrs=("g", "random_order")))
+    if exc:
+        return
+    p, hist = r
+    fs = mk_arr(n, lambda k: xdiv_np(xadd(npx(t), g), xadd(npx(x.at(k)), g)))
+    Q = fs.fold("*")
+    one = XR.const(1, npk=True)
+    S.holds("len(hist)=n", icmp("==", hist.length, n))
+    if isinstance(n, int):
+        for j in range(n):
+            S.eq("hist[j]=min(1, prod (t+g)/(x_i+g))", hist.at(j), xminimum(Q.at(j + 1), one))
+        return
+    cps = I.trace.get("cum*", [])
+    if len(cps) != 1:
+        S.holds("one running product", False)
+        return
+    instF = scoped_induction(S, "running-products-agree", lambda i: xsame(cps[0].fold("*").at(i), Q.at(i)), n)
+    for j in indices(S, n, "j"):
+        instF(j + 1)
+        S.eq("hist[j]=min(1, prod (t+g)/(x_i+g))", hist.at(j), xminimum(Q.at(j + 1), one))
+
+
+@script(["C12", "C01"], "NonnegMean.kaplan_wald/product-form")
+def kw_product(S, I, variant):
+    n = S.length("n", lo=1)
+    u = S.real("u", lo_strict=0)
+    t = S.real("t", lo_strict=0, hi_strict=u)
+    g = S.real("g", lo=0, hi=1)
+    x = S.array("x", n, 0, u)
+    ro = S.boolean("random_order")
+    self = mk_self(I, {"u": u, "N": INF, "t": t, "g": g, "random_order": ro})
+    fn = I.get(MOD, "NonnegMean.kaplan_wald")
+    I.trace.clear()
+    r, exc = run_guard(S, I, fn, [self, x], native=nn_native("kaplan_wald", False, attrs=("g", "random_order")))
+    if exc:
+        return
+    p, hist = r
+    one = XR.const(1, npk=True)
+    fs = mk_arr(n, lambda k: xadd(xdiv_np(xmul(xsub(one, g), npx(x.at(k))), npx(t)), g))
+    T = fs.fold("*")
+    S.holds("len(hist)=n", icmp("==", hist.length, n))
+    if isinstance(n, int):
+        for j in range(n):
+            S.eq("hist[j]=min(1, 1/prod ((1-g)x_i/t+g))", hist.at(j), xminimum(xdiv_np(one, T.at(j + 1)), one))
+        return
+    cps = I.trace.get("cum*", [])
+    if len(cps) != 1:
+        S.holds("one running product", False)
+        return
+    instF = scoped_induction(S, "running-products-agree", lambda i: xsame(cps[0].fold("*").at(i), T.at(i)), n)
+    for j in indices(S, n, "j"):
+        instF(j + 1)
+        S.eq("hist[j]=min(1, 1/prod ((1-g)x_i/t+g))", hist.at(j), xminimum(xdiv_np(one, T.at(j + 1)), one))
+
+
+@script(["C12", "C01"], "NonnegMean.wald_sprt/product-form", variants=(("finiteN",), ("infN",)))
+def sprt_product(S, I, variant):
+    finiteN = variant[0] == "finiteN"
+    n, u, t, Nv, Nspec = base_regime(S, finiteN)
+    eta = S.real("eta", lo_strict=t, hi_strict=u)
+    x = S.array("x", n, 0, u)
+    self = mk_self(I, {"u": u, "N": Nv, "t": t, "eta": eta, "random_order": True})
+    fn = I.get(MOD, "NonnegMean.wald_sprt")
+    I.trace.clear()
+    r, exc = run_guard(S, I, fn, [self, x], native=nn_native("wald_sprt", finiteN, attrs=("eta",)))
+    if exc:
+        return
+    p, hist = r
+    PS = x.fold("+")
+    mu = lambda k: mu_spec(Nspec, t, PS, k)
+    etak = lambda k: mu_spec(Nspec, eta, PS, k)
+    fs = mk_arr(n, lambda k: alpha_factor(x.at(k), etak(k), mu(k), u))
+    T = fs.fold("*")
+    one = XR.const(1, npk=True)
+    S.holds("len(hist)=n", icmp("==", hist.length, n))
+
+    def spec(j, Tj):
+        v = xminimum(one, xdiv_np(one, Tj))
+        if finiteN:
+            v = xite(xcmp("<", mu(j), XR.const(0)), XR.const(0, npk=True), v)
+        return v
+
+    if isinstance(n, int):
+        for j in range(n):
+            S.eq("hist[j]=min(1,1/T_j), T_j = prod of the SPRT factors with eta_i=(N eta-S_i)/(N-i)", hist.at(j), spec(j, T.at(j + 1)))
+        return
+    cps = I.trace.get("cum*", [])
+    if len(cps) != 1:
+        S.holds("exactly one running product (the statistic must not be compounded twice)", False)
+        return
+    instF = scoped_induction(S, "running-products-agree", lambda i: xsame(cps[0].fold("*").at(i), T.at(i)), n)
+    for j in indices(S, n, "j"):
+        instF(j + 1)
+        S.eq("hist[j]=min(1,1/T_j), T_j = prod of the SPRT factors with eta_i=(N eta-S_i)/(N-i)", hist.at(j), spec(j, T.at(j + 1)))
